@@ -5,7 +5,7 @@ import ast
 import math
 
 from ..astmodel import AstModel
-from ..cfg import CFG, branch_conditions
+from ..cfg import CFG, atomic_conditions, branch_conditions
 from ..fsmodel import is_name, names_in
 from ..report import Run
 from ..resolve import Resolver
@@ -88,6 +88,9 @@ def check(run: Run) -> None:
             if _true_pair(v):
                 continue
             ok = isinstance(v, ast.Tuple) and len(v.elts) == 2 and is_name(v.elts[0], pvalue) and isinstance(v.elts[1], ast.Constant) and v.elts[1].value is False
+            # a dispatcher hands its own value to another _attempt_* function and returns that function's pair
+            if not ok and isinstance(v, ast.Call) and isinstance(v.func, ast.Name) and any(a.name == v.func.id and a is not fi for a in attempts) and v.args and is_name(v.args[0], pvalue) and not _rebound(fi, pvalue):
+                ok = True
             if not ok:
                 run.violation("R11.2", fi.module, fi.qualname, rn.ast, "an _attempt_* repair returns something other than (original value, False) or (new value, True)")  # type: ignore[arg-type]
     # repair_value / _repair_ast_node apply only when the callee reported a repair
@@ -169,18 +172,46 @@ def check(run: Run) -> None:
     if not loops:
         raise AnalysisError("repair_value: repair loop not found")
     pv, pfd, _, pfix = [a.arg for a in rv.node.args.args][:4]  # type: ignore[attr-defined]
-    need = {
-        "literal zone": lambda t, val: isinstance(t, ast.Call) and ast.unparse(t.func) == "isinstance" and "LiteralZoneValue" in ast.unparse(t.args[1]) and is_name(t.args[0], pv) and val is False,
-        "not fix": lambda t, val: (isinstance(t, ast.UnaryOp) and isinstance(t.op, ast.Not) and is_name(t.operand, pfix) and val is False) or (is_name(t, pfix) and val is True),
-        "field_def is None": lambda t, val: isinstance(t, ast.Compare) and is_name(t.left, pfd) and isinstance(t.ops[0], ast.Is) and val is False,
-        "pattern is None": lambda t, val: isinstance(t, ast.Compare) and ast.unparse(t.left).endswith(".pattern") and isinstance(t.ops[0], ast.Is) and val is False,
-        "constraints is None": lambda t, val: isinstance(t, ast.Compare) and ast.unparse(t.left).endswith(".constraints") and isinstance(t.ops[0], ast.Is) and val is False,
-        "value is None": lambda t, val: isinstance(t, ast.Compare) and is_name(t.left, pv) and isinstance(t.ops[0], ast.Is) and val is False,
-    }
+    def need_for(pv, pfd, pfix):
+        return {
+            "literal zone": lambda t, val: isinstance(t, ast.Call) and ast.unparse(t.func) == "isinstance" and "LiteralZoneValue" in ast.unparse(t.args[1]) and is_name(t.args[0], pv) and val is False,
+            "not fix": lambda t, val: (isinstance(t, ast.UnaryOp) and isinstance(t.op, ast.Not) and is_name(t.operand, pfix) and val is False) or (is_name(t, pfix) and val is True),
+            "field_def is None": lambda t, val: isinstance(t, ast.Compare) and is_name(t.left, pfd) and isinstance(t.ops[0], ast.Is) and val is False,
+            "pattern is None": lambda t, val: isinstance(t, ast.Compare) and ast.unparse(t.left).endswith(".pattern") and isinstance(t.ops[0], ast.Is) and val is False,
+            "constraints is None": lambda t, val: isinstance(t, ast.Compare) and ast.unparse(t.left).endswith(".constraints") and isinstance(t.ops[0], ast.Is) and val is False,
+            "value is None": lambda t, val: isinstance(t, ast.Compare) and is_name(t.left, pv) and isinstance(t.ops[0], ast.Is) and val is False,
+        }
+
+    need = need_for(pv, pfd, pfix)
+
+    def via_helper(name: str, conds) -> bool:
+        """the loop runs only where `V` is truthy, V = helper(field_def), and the helper returns a non-empty result only
+        where the guard `name` has been passed (every other return is an empty literal)"""
+        for t, val in conds:
+            v = t.operand if isinstance(t, ast.UnaryOp) and isinstance(t.op, ast.Not) else t
+            truthy = (val is True) if v is t else (val is False)
+            if not (isinstance(v, ast.Name) and truthy):
+                continue
+            defs = [d for _st, d in _assignments(rv, v.id)]
+            if len(defs) != 1 or not (isinstance(defs[0], ast.Call) and isinstance(defs[0].func, ast.Name) and mod.has_func(defs[0].func.id)):
+                continue
+            call = defs[0]
+            h = mod.func(call.func.id)
+            hparams = [a.arg for a in h.node.args.args]  # type: ignore[attr-defined]
+            if len(call.args) != 1 or not is_name(call.args[0], pfd) or len(hparams) != 1 or _rebound(h, hparams[0]):
+                continue
+            hneed = need_for("\0", hparams[0], "\0")[name]
+            hcfg = CFG(h.node)
+            rets = [n for n in hcfg.nodes if isinstance(n.ast, ast.Return)]
+            nonempty = [n for n in rets if not (isinstance(n.ast.value, (ast.List, ast.Tuple)) and not n.ast.value.elts) and not (isinstance(n.ast.value, ast.Constant) and not n.ast.value.value)]  # type: ignore[union-attr]
+            if rets and all(any(hneed(t2, v2) for t2, v2 in atomic_conditions(hcfg, n.id)) for n in nonempty):
+                return True
+        return False
+
     for lp in loops:
-        conds = branch_conditions(cfg, lp.id)
+        conds = atomic_conditions(cfg, lp.id)
         for name, pred in need.items():
-            ok = any(pred(t, val) for t, val in conds)
+            ok = any(pred(t, val) for t, val in conds) or (name in ("field_def is None", "pattern is None", "constraints is None") and via_helper(name, conds))
             run.instance("R11.3", f"{mod.relpath}:{lp.lineno}", f"repair_value: guard `{name}` returns before the repair loop", ok=ok)
             if not ok:
                 run.violation("R11.3", mod, rv.qualname, f"guard: {name}", f"the repair loop of repair_value can be reached without the `{name}` guard having returned the value unchanged", line=lp.lineno)
@@ -203,7 +234,7 @@ def check(run: Run) -> None:
     if not succ:
         raise AnalysisError("_attempt_type_coercion: success return not found")
     for rn in succ:
-        conds = branch_conditions(cfg, rn.id)
+        conds = atomic_conditions(cfg, rn.id)
         kind_ok = any(isinstance(t, ast.Compare) and isinstance(t.ops[0], ast.NotEq) and any(isinstance(c, ast.Constant) and c.value == "NUMBER" for c in ast.walk(t)) and val is False for t, val in conds)
         str_ok = any(isinstance(t, ast.UnaryOp) and isinstance(t.op, ast.Not) and isinstance(t.operand, ast.Call) and ast.unparse(t.operand.func) == "isinstance" and is_name(t.operand.args[0], pv) and ast.unparse(t.operand.args[1]) == "str" and val is False for t, val in conds)
         run.instance("R11.5", f"{mod.relpath}:{rn.lineno}", "_attempt_type_coercion: success only for NUMBER constraints on str values", ok=kind_ok and str_ok)
